@@ -2,6 +2,7 @@
 // deviate streams and events, parked and released one at a time by the seeded scheduler.
 //
 //   op t_cfg    task cat level mode emin_keV emax_keV mdl ; nuclide
+//               cat 3 = a bxdecay0::dbd_gA instance used directly (level = process 0/1, mode = 1 rejection / 2 inverse transform)
 //   op t_init   task stream
 //   op t_shoot  task stream count
 //   op t_reinit task stream
@@ -20,14 +21,19 @@
 #include "sched.h"
 #include "simfs.h"
 #include "simrandom.h"
+#include <bxdecay0/dbd_gA.h>
 #include <fstream>
 #include <memory>
+#include <sys/prctl.h>
 #include <sys/stat.h>
+#include <sys/wait.h>
+#include <csignal>
 #include <unistd.h>
 
 namespace sim {
 
 std::string ga_dataset(const std::string & name);
+std::string ga_file(const std::string & name, const std::string & file);
 std::string ga_root();
 std::string san_dir();
 
@@ -57,12 +63,47 @@ GenCfg cfg_of(const Op & op)
 void task_body(const Plan & plan, int task, TaskLog & log)
 {
   std::unique_ptr<bxdecay0::decay0_generator> gen;
+  std::unique_ptr<bxdecay0::dbd_gA> ga; // cat 3: the gA generator class used directly
   GenCfg cfg; bool has_cfg = false;
+  auto ga_setup = [&]() {
+    ga->set_nuclide(cfg.nuc);
+    ga->set_process(cfg.level & 1 ? bxdecay0::dbd_gA::PROCESS_G2 : bxdecay0::dbd_gA::PROCESS_G0);
+    ga->set_shooting(cfg.mode == 1 ? bxdecay0::dbd_gA::SHOOTING_REJECTION : bxdecay0::dbd_gA::SHOOTING_INVERSE_TRANSFORM_METHOD);
+  };
   for (const Op & op : plan.ops) {
     if (op.k.rfind("t_", 0) != 0 || op.arg(0) != task) continue;
     sched_point(SP_OP, 0);
     try {
-      if (op.k == "t_cfg") {
+      if (op.arg(1, 2) == 3 && op.k == "t_cfg") {
+        gen.reset(); ga.reset(); ga.reset(new bxdecay0::dbd_gA);
+        cfg = cfg_of(op); has_cfg = false;
+        ga_setup(); has_cfg = true;
+        log.items.push_back(hstr("cfg" + cfg.key()));
+      } else if (ga && op.k != "t_cfg") {
+        if (op.k == "t_init") {
+          if (!has_cfg || ga->is_initialized()) continue;
+          ga->initialize();
+          log.inits++;
+          log.items.push_back(hstr("ga-init"));
+        } else if (op.k == "t_reinit") {
+          if (!ga->is_initialized()) continue;
+          ga->reset(); ga_setup(); ga->initialize();
+          log.inits++;
+          log.items.push_back(hstr("ga-reinit"));
+        } else if (op.k == "t_shoot") {
+          if (!ga->is_initialized()) continue;
+          SimRandom r(hmix(hstr("thr-shot"), hmix((u64)task, (u64)op.arg(1))));
+          r.yield_every = 1;
+          bxdecay0::event ev;
+          for (i64 i = 0; i < op.arg(2, 1); i++) {
+            r.begin_op(3000000);
+            ga->shoot(r, ev);
+            log.shots++;
+            log.items.push_back(EventRec::of(ev).hash());
+          }
+        }
+      } else if (op.k == "t_cfg") {
+        ga.reset();
         gen.reset(); gen.reset(new bxdecay0::decay0_generator);
         cfg = cfg_of(op); has_cfg = false;
         apply_cfg(*gen, cfg); has_cfg = true;
@@ -104,6 +145,49 @@ void task_body(const Plan & plan, int task, TaskLog & log)
   }
 }
 
+/// Pristine-process runs only: the reference "what this task produces when run alone" is computed in a child forked
+/// BEFORE any task has run, i.e. in a process whose library statics are as untouched as they are for the concurrent
+/// phase. (The same-process solo phase below runs after the concurrent one: a value frozen at first use by whichever
+/// task got there first is frozen for it too.) Returns false when the child did not deliver (it crashed or overflowed).
+bool solo_in_pristine_child(const Plan & plan, int t, int ntasks, const std::set<std::pair<int, i64>> & inject, i64 max_steps, TaskLog & log)
+{
+  int pfd[2];
+  if (pipe(pfd) != 0) return false;
+  fflush(stdout); fflush(stderr);
+  pid_t pid = fork();
+  if (pid < 0) { close(pfd[0]); close(pfd[1]); return false; }
+  if (pid == 0) {
+    close(pfd[0]);
+    prctl(PR_SET_PDEATHSIG, SIGKILL);
+    TaskLog l;
+    std::vector<std::function<void()>> one;
+    for (int k = 0; k < ntasks; k++) {
+      if (k == t) one.push_back([&plan, t, &l]() { task_body(plan, t, l); });
+      else one.push_back([]() {});
+    }
+    fs::begin_op();
+    sched::Result sr = sched::run(one, {}, t, inject, max_steps);
+    if (sr.deadlock || sr.stalled || sr.step_overflow) _exit(3);
+    std::vector<u64> buf; buf.push_back((u64)l.items.size());
+    for (u64 v : l.items) buf.push_back(v);
+    buf.push_back((u64)l.failures);
+    const char * b = (const char *)buf.data(); size_t n = buf.size() * sizeof(u64), off = 0;
+    while (off < n) { ssize_t w = ::write(pfd[1], b + off, n - off); if (w <= 0) _exit(4); off += (size_t)w; }
+    _exit(0);
+  }
+  close(pfd[1]);
+  std::string in; char b[4096]; ssize_t n;
+  while ((n = ::read(pfd[0], b, sizeof b)) > 0 || (n < 0 && errno == EINTR)) if (n > 0) in.append(b, (size_t)n);
+  close(pfd[0]);
+  int st = 0; while (waitpid(pid, &st, 0) < 0 && errno == EINTR) {}
+  if (in.size() < 2 * sizeof(u64)) return false;
+  const u64 * w = (const u64 *)in.data(); size_t nw = in.size() / sizeof(u64);
+  if (nw != w[0] + 2) return false;
+  log.items.assign(w + 1, w + 1 + w[0]);
+  log.failures = (i64)w[nw - 1];
+  return true;
+}
+
 u64 log_hash(const TaskLog & l) { u64 h = 7; for (u64 v : l.items) h = hmix(h, v); return h; }
 
 Outcome run_threads(const Plan & plan, const RunCtx & ctx)
@@ -124,10 +208,24 @@ Outcome run_threads(const Plan & plan, const RunCtx & ctx)
     else if (op.k == "ga_put") {
       std::string p = ga_root() + "/data/dbd_gA/v1.0/" + GA_NUC[op.arg(0) & 3] + "/" + GA_PROC[op.arg(1) & 1] + "/tab_ocdf.data";
       fs::put(p, ga_dataset(GA_SETS[(size_t)(op.arg(2) % 3)]));
+      // the tabulated p.d.f. of the same dataset (read by the rejection method of a directly used dbd_gA instance)
+      std::string pp = p.substr(0, p.size() - std::string("tab_ocdf.data").size()) + "tab_pdf.data";
+      fs::put(pp, ga_file(GA_SETS[(size_t)(op.arg(2) % 3)], "tab_pdf.data"));
     }
   }
   sched::set_io_points(plan.hint("io_points", 0) != 0);
   const i64 MAX_STEPS = 20000000;
+  // ---- pristine-process runs: solo references from children forked before anything ran ----------------------
+  // (not with a per-task read fault: which of a task's reads is the k-th depends on who loaded the shared catalogue lists)
+  std::vector<TaskLog> psolo((size_t)ntasks); std::vector<char> psolo_ok((size_t)ntasks, 0);
+  if (plan.hint("io_points", 0) != 0 && fs::faults().task_eio_at_read.empty()) {
+    sched::set_io_points(false);
+    for (int t = 0; t < ntasks; t++) {
+      psolo_ok[(size_t)t] = solo_in_pristine_child(plan, t, ntasks, inject, MAX_STEPS, psolo[(size_t)t]) ? 1 : 0;
+      out.ctr[psolo_ok[(size_t)t] ? "pristine_solo_references" : "diag_pristine_solo_reference_unavailable"]++;
+    }
+    sched::set_io_points(true);
+  }
   // ---- concurrent phase (first: so that first-use initialisation of library statics happens under threads) ----
   std::vector<TaskLog> conc((size_t)ntasks);
   std::vector<std::function<void()>> bodies;
@@ -198,7 +296,7 @@ Outcome run_threads(const Plan & plan, const RunCtx & ctx)
     out.ctr["sched_steps"] += sr.steps;
   }
   i64 tot_shots = 0;
-  for (int t = 0; t < ntasks; t++) { tr.add(log_hash(conc[(size_t)t])); tr.add(log_hash(solo[(size_t)t])); tot_shots += conc[(size_t)t].shots; out.ctr["task_op_failures"] += conc[(size_t)t].failures; }
+  for (int t = 0; t < ntasks; t++) { tr.add(log_hash(conc[(size_t)t])); tr.add(log_hash(solo[(size_t)t])); if (psolo_ok[(size_t)t]) tr.add(log_hash(psolo[(size_t)t])); tot_shots += conc[(size_t)t].shots; out.ctr["task_op_failures"] += conc[(size_t)t].failures; }
   out.ctr["shots"] += tot_shots;
   out.ctr["tasks_run"] += ntasks;
   if (cr.switches > 0) out.ctr["probe_runs_with_preemption"]++;
@@ -225,6 +323,17 @@ Outcome run_threads(const Plan & plan, const RunCtx & ctx)
         break;
       }
     }
+    // (2b) same results as alone in a pristine process
+    for (int t = 0; t < ntasks; t++) {
+      if (psolo_ok[(size_t)t] && conc[(size_t)t].items != psolo[(size_t)t].items) {
+        const auto & a = conc[(size_t)t].items; const auto & b2 = psolo[(size_t)t].items;
+        size_t k = 0; while (k < a.size() && k < b2.size() && a[k] == b2[k]) k++;
+        out.fail("C12", "differs-from-solo-run", "differs-from-pristine-solo-run",
+                 "task " + std::to_string(t) + " observed different results when run concurrently than when run alone in a pristine process (first difference at item #"
+                     + std::to_string(k) + " of " + std::to_string(a.size()) + "/" + std::to_string(b2.size()) + "; concurrent error: '" + conc[(size_t)t].first_error + "')");
+        break;
+      }
+    }
     // (3b) memory-level races seen by ThreadSanitizer
     if (!tsan_cls.empty()) out.fail("C12", tsan_cls, tsan_sig, tsan_detail);
     // (4) bounded completion
@@ -245,7 +354,8 @@ GenCfg pick_thread_cfg(Rng & r, i64 & est_quads)
   if (d < 25 && !miss.empty()) { const DbdEntry & e = r.pick(miss); c.cat = 1; c.nuc = e.nuc; c.level = e.level; c.mode = e.mode; est_quads = e.qng_calls; }
   else if (d < 55 && !quad.empty()) { const DbdEntry & e = r.pick(quad); c.cat = 1; c.nuc = e.nuc; c.level = e.level; c.mode = e.mode; est_quads = e.qng_calls; }
   else if (d < 70 && !cheap.empty()) { const DbdEntry & e = r.pick(cheap); c.cat = 1; c.nuc = e.nuc; c.level = e.level; c.mode = e.mode; }
-  else if (d < 80) { c.cat = 1; c.nuc = GA_NUC[r.below(4)]; c.level = 0; c.mode = (int)r.range(21, 22); }
+  else if (d < 78) { c.cat = 1; c.nuc = GA_NUC[r.below(4)]; c.level = 0; c.mode = (int)r.range(21, 22); }
+  else if (d < 82) { c.cat = 3; c.nuc = GA_NUC[r.below(4)]; c.level = (int)r.below(2); c.mode = r.chance(0.7) ? 1 : 2; }
   else { c.cat = 2; c.nuc = r.pick(bkg_names()); }
   if (r.chance(0.1)) c.mdl = (int)r.range(1, mdl_presets());
   return c;
@@ -276,7 +386,7 @@ Plan gen_threads(u64 seed, u64 idx, const RunCtx & ctx)
       if (twins && k == 0) q = twin_q;
       if (all_ga) { c = GenCfg(); c.cat = 1; c.nuc = GA_NUC[r.below(4)]; c.level = 0; c.mode = (int)r.range(21, 22); q = 0; }
       quads[(size_t)t] += q;
-      if (c.mode >= 21) any_ga = true;
+      if (c.mode >= 21 || c.cat == 3) any_ga = true;
       Op o; o.k = "t_cfg"; o.a = {t, c.cat, c.level, c.mode, c.emin_keV, c.emax_keV, c.mdl}; o.s = {c.nuc};
       p.ops.push_back(o);
       Op in; in.k = "t_init"; in.a = {t, (i64)r.below(1000)}; p.ops.push_back(in);
@@ -384,6 +494,42 @@ Plan gen_threads_twins(u64 seed, u64 idx, const RunCtx &)
   return p;
 }
 
+/// Systematic companion for pristine-process batches: two clients run the same DBD MODE for two DIFFERENT nuclides
+/// (run index enumerates the modes; the pair is drawn). A per-mode sampler is the only code two such clients share
+/// beyond the common helpers, and a value it freezes at first use belongs to whichever client got there first.
+Plan gen_threads_siblings(u64 seed, u64 idx, const RunCtx & ctx)
+{
+  Plan p; p.suite = "threads-siblings"; p.seed = seed; p.idx = idx;
+  Rng r(hmix(hmix(seed, hstr("threads-siblings")), idx));
+  static std::map<int, std::vector<DbdEntry>> by_mode;
+  static std::vector<int> modes;
+  if (modes.empty()) {
+    for (auto & e : dbd_catalogue()) if (e.qng_calls < 1500) by_mode[e.mode].push_back(e);
+    for (auto & m : by_mode) { std::set<std::string> nucs; for (auto & e : m.second) nucs.insert(e.nuc); if (nucs.size() >= 2) modes.push_back(m.first); }
+  }
+  p.hdr["ntasks"] = "2"; p.hdr["twins"] = "0";
+  p.hdr["io_points"] = ctx.fresh ? "1" : "0";
+  int mode = modes[(size_t)((idx + hmix(seed, 77) % modes.size()) % modes.size())];
+  const auto & v = by_mode[mode];
+  const DbdEntry & a = r.pick(v);
+  const DbdEntry * b = &r.pick(v);
+  for (int i = 0; i < 50 && b->nuc == a.nuc; i++) b = &r.pick(v);
+  const DbdEntry * es[2] = {&a, b};
+  i64 quads[2] = {a.qng_calls, b->qng_calls};
+  for (int t = 0; t < 2; t++) {
+    Op o; o.k = "t_cfg"; o.a = {t, 1, es[t]->level, es[t]->mode, -1, -1, 0}; o.s = {es[t]->nuc}; p.ops.push_back(o);
+    Op in; in.k = "t_init"; in.a = {t, (i64)r.below(1000)}; p.ops.push_back(in);
+    Op sh; sh.k = "t_shoot"; sh.a = {t, (i64)r.below(1000), 4}; p.ops.push_back(sh);
+  }
+  { Op f; f.k = "first"; f.a = {(i64)r.below(2)}; p.ops.push_back(f); }
+  if (r.chance(0.7)) for (int from = 0; from < 2; from++) {
+    i64 span = 80 + quads[from] * 8;
+    int k = (int)r.range(1, 10);
+    for (int i = 0; i < k; i++) { Op o; o.k = "sw"; o.a = {0, 1 + (i64)r.below((u64)span), from, 1 - from}; p.ops.push_back(o); }
+  }
+  return p;
+}
+
 std::vector<Op> simplify_threads(const Op & op)
 {
   std::vector<Op> v;
@@ -398,6 +544,9 @@ SuiteRegistrar reg_threads({"threads", "2-3 clients on real threads under the se
 
 SuiteRegistrar reg_threads_twins({"threads-twins", "two clients running the same configuration, enumerated over all nuclides and DBD triples (C12)", gen_threads_twins,
                                   run_threads, simplify_threads, nullptr});
+
+SuiteRegistrar reg_threads_siblings({"threads-siblings", "two clients running the same DBD mode for two different nuclides, enumerated over the modes (C12, pristine-process batches)",
+                                     gen_threads_siblings, run_threads, simplify_threads, nullptr});
 
 } // namespace
 } // namespace sim
